@@ -38,6 +38,10 @@ def cases(tier, seed):
     # long documents (thousands of tokens; token-buffer / block sizes), with n-gram ranges spanning 2 to 5 lengths
     for N in (300, 4097, 4099, 9001) + ((20001, 70001) if tier == "thorough" else ()):
         yield {"long": N, "first": [], "second": ["the aab aa", ""], "opts": "long"}
+    # documents of four tokens over an alphabet in which different n-grams concatenate to the same string (no+table = not+able)
+    coll = [" ".join(t) for t in itertools.product(("no", "not", "able", "table"), repeat=4)]
+    for i in range(0, len(coll), 16):
+        yield {"first": ["not able no"], "second": coll[i:i + 16], "opts": "collide"}
     if tier == "quick":
         for d1 in docs:
             for d2 in docs:
@@ -62,6 +66,9 @@ MENU = [(1, 1.0, None, False), (2, 1.0, None, False), (1, 0.5, None, False), (1,
 
 def _opts(mode="full"):
     global OPTS
+    if mode == "collide":
+        return [dict(ngram_range=ng, stop_words=None, lowercase=True, min_df=md, max_df=1.0, max_features=None, binary=b)
+                for ng in ((1, 2), (2, 2), (2, 3), (1, 3), (3, 3)) for md in (1, 2) for b in (False, True)]
     if mode == "long":
         return [dict(ngram_range=ng, stop_words=sw, lowercase=True, min_df=1, max_df=1.0, max_features=None, binary=b)
                 for ng in ((1, 1), (1, 3), (2, 4), (3, 3), (1, 5)) for sw in (None, ["aab"]) for b in (False, True)]
